@@ -160,7 +160,7 @@ CHECKS = {
         "DESIGN.md §5 C09",
     ),
     "C12": (
-        "Coq proof (call vs execute of the retry loop by a simulation that forgets the captured timeline, by induction over the loop; call vs execute through the policy wrapper; Policy without breaker = Retry) tied by in-Coq full-trace correspondence of every entry point (20: Retry/Policy/RetryPolicy x call/execute, contexts, @retry; sync and async) with the one model, plus pairwise comparison of the implementation's own traces",
+        "Coq proof (call vs execute of the retry loop by a simulation that forgets the captured timeline, by induction over the loop; call vs execute through the policy wrapper; Policy without breaker = Retry) tied by in-Coq full-trace correspondence of every entry point (32: Retry/Policy/RetryPolicy x call/execute, contexts, @retry, from_config, attribute configuration; sync and async) with the one model, plus pairwise comparison of the implementation's own traces (incl. callbacks at both levels); the delegating layers (wrappers.py, context.py, decorator.py, constructors / from_config / context() of the policy classes, RetryConfig) are additionally tied by translation on every run (pyir_sugar.py: every delegation hands over every parameter of its callee under its own name and every layer repeats the base defaults — obligations evaluated in Coq)",
         "Theorems C12_call_execute, C12_iter, C12_settle_call_execute, C12_policy_call_execute, C12_policy_without_breaker for all "
         "configurations/environments of the Gallina models. The sync/async twins and the sugar have no model of their own: they "
         "are tied by correspondence (each entry point against the same model, full trace) and by the pairwise oracle only. Two "
